@@ -78,7 +78,9 @@ class Q:
         return [d for d in self.defs.get(local, []) if d.kind == "arg" or not d.place["p"]]
 
     def single_def(self, local):
-        ds = self.defs.get(local, [])
+        # writes *through* a reference local ((*r).f = .., (*r)[i] = ..) do not redefine the local itself
+        ds = [d for d in self.defs.get(local, [])
+              if d.kind == "arg" or not d.place["p"] or d.place["p"][0]["k"] != "deref"]
         if len(ds) == 1 and (ds[0].kind == "arg" or not ds[0].place["p"]):
             return ds[0]
         return None
